@@ -134,25 +134,29 @@ static int owner_key(int fd, char* name) {
   sprintf(name, "other"); return 100001;
 }
 
+static unsigned long long iter_no(void) { uv_metrics_t m; if (uv_metrics_info(&loop, &m)) return 0; return m.loop_count; }
+
 int epoll_pwait(int epfd, struct epoll_event* ev, int maxev, int timeout, const sigset_t* ss) {
   (void) ss;
+  if (!in_run) return (int) syscall(SYS_epoll_pwait, epfd, ev, maxev, 0, NULL, 8);   /* the throw-away loop */
   int done = complete_works();
+  unsigned long long it = iter_no();
   long k = npolls++;
   for (int i = 0; i < neintr; i++) if (eintr[i].k == k) {
     long d = eintr[i].d; if (timeout > 0 && d > timeout) d = timeout; if (timeout == 0) d = 0;
     vclock_ms += d;
-    printf("env poll timeout=%d clock=%llu done=%d -> EINTR\n", timeout, (unsigned long long) vclock_ms, done);
+    printf("env poll iter=%llu timeout=%d clock=%llu done=%d -> EINTR\n", it, timeout, (unsigned long long) vclock_ms, done);
     errno = EINTR; return -1;
   }
   int n = syscall(SYS_epoll_pwait, epfd, ev, maxev, 0, NULL, 8);
   if (n < 0) n = 0;
   if (n == 0) {
     if (timeout == -1) {
-      printf("env poll timeout=-1 clock=%llu done=%d -> DEADLOCK\n", (unsigned long long) vclock_ms, done);
+      printf("env poll iter=%llu timeout=-1 clock=%llu done=%d -> DEADLOCK\n", it, (unsigned long long) vclock_ms, done);
       fflush(stdout); gate_forever = 1; _exit(0);
     }
     if (timeout > 0) vclock_ms += timeout;
-    printf("env poll timeout=%d clock=%llu done=%d ->\n", timeout, (unsigned long long) vclock_ms, done);
+    printf("env poll iter=%llu timeout=%d clock=%llu done=%d ->\n", it, timeout, (unsigned long long) vclock_ms, done);
     return 0;
   }
   /* canonical order */
@@ -164,7 +168,7 @@ int epoll_pwait(int epfd, struct epoll_event* ev, int maxev, int timeout, const 
     struct epoll_event e = ev[i]; ev[i] = ev[j]; ev[j] = e;
     char nm[16]; strcpy(nm, names[i]); strcpy(names[i], names[j]); strcpy(names[j], nm);
   }
-  printf("env poll timeout=%d clock=%llu done=%d ->", timeout, (unsigned long long) vclock_ms, done);
+  printf("env poll iter=%llu timeout=%d clock=%llu done=%d ->", it, timeout, (unsigned long long) vclock_ms, done);
   for (int i = 0; i < n; i++) printf(" %s:%u", names[i], (unsigned) ev[i].events);
   printf("\n");
   return n;
@@ -261,10 +265,9 @@ static void exec_op(char* text0) {
   if (loop_closed) BAD;
   const char* o = w[0];
   int i = hnum(w[1]);
-  if (!strcmp(o, "init") && nw == 3) {
+  if (!strcmp(o, "init") && nw == 2) {
     int k; for (k = 0; k < K_NKINDS; k++) if (!strcmp(w[1], kind_names[k])) break;
-    int id = hnum(w[2]);
-    if (k == K_NKINDS || id != nh || nh >= MAXH) BAD;
+    if (k == K_NKINDS || nh >= MAXH) BAD;
     hent* e = &H[nh]; memset(e, 0, sizeof *e); e->kind = k; e->fd_a = e->fd_b = -1;
     int r = 0;
     switch (k) {
@@ -338,8 +341,8 @@ static void exec_op(char* text0) {
     struct sockaddr_in a; uv_ip4_addr("127.0.0.1", 0, &a);
     int r = uv_udp_bind((uv_udp_t*) H[i].ptr, (struct sockaddr*) &a, 0); if (r == 0) H[i].bound = 1; RET(r);
   }
-  if (!strcmp(o, "udp_send") && nw == 3 && rnum(w[1]) == nr && nr < MAXR) {
-    int h = hnum(w[2]);
+  if (!strcmp(o, "udp_send") && nw == 2 && nr < MAXR) {
+    int h = i;
     if (!live(h) || H[h].kind != K_UDP || uv_is_closing(H[h].ptr)) BAD;
     uv_udp_send_t* req = malloc(sizeof *req); static char byte = 'x'; uv_buf_t b = uv_buf_init(&byte, 1);
     R[nr].kind = 1; R[nr].state = H_LIVE; R[nr].ptr = req; R[nr].handle = h; nr++;
@@ -348,7 +351,7 @@ static void exec_op(char* text0) {
     H[h].bound = 1;
     RET(r);
   }
-  if (!strcmp(o, "work") && nw == 2 && rnum(w[1]) == nr && nr < MAXR) {
+  if (!strcmp(o, "work") && nw == 1 && nr < MAXR) {
     uv_work_t* req = malloc(sizeof *req);
     R[nr].kind = 0; R[nr].state = H_LIVE; R[nr].ptr = req; R[nr].handle = -1;
     int me = nr++;
@@ -408,7 +411,7 @@ int main(int argc, char** argv) {
   if (argc > 1) snprintf(scratch, sizeof scratch, "%s", argv[1]);
   { char p[200]; snprintf(p, sizeof p, "%s/watch", scratch); mkdir(p, 0700); snprintf(p, sizeof p, "%s/sock", scratch); mkdir(p, 0700); }
   /* process-wide one-time state (signal lock pipe, clock probing) is created by a throw-away loop */
-  { uv_loop_t l0; uv_loop_init(&l0); uv_run(&l0, UV_RUN_NOWAIT); uv_loop_close(&l0); npolls = 0; }
+  { uv_loop_t l0; uv_loop_init(&l0); uv_run(&l0, UV_RUN_NOWAIT); uv_loop_close(&l0); }
   sink_fd = socket(AF_INET, SOCK_DGRAM | SOCK_CLOEXEC, 0);
   memset(&sink_addr, 0, sizeof sink_addr); sink_addr.sin_family = AF_INET; sink_addr.sin_addr.s_addr = htonl(INADDR_LOOPBACK);
   bind(sink_fd, (struct sockaddr*) &sink_addr, sizeof sink_addr);
